@@ -81,11 +81,21 @@ def run(case):
         env["UBSAN_OPTIONS"] = "halt_on_error=1:exitcode=98"
         env["TZ"] = "UTC"
         env["LC_ALL"] = "C.UTF-8"
-        try:
-            r = subprocess.run([RUNNER, sp], env=env, stdout=subprocess.DEVNULL, stderr=subprocess.PIPE, timeout=120, cwd=work)
-        except subprocess.TimeoutExpired:
-            STATS.count("child_timeouts")
-            return "the fatal message did not terminate the process within 120 s (child hung)"
+        r = None
+        for attempt in range(2):  # a child that is merely slow on a loaded machine is not a hang: it must miss the bound twice
+            try:
+                r = subprocess.run([RUNNER, sp], env=env, stdout=subprocess.DEVNULL, stderr=subprocess.PIPE, timeout=180, cwd=work)
+                break
+            except subprocess.TimeoutExpired:
+                STATS.count("child_timeouts")
+                for f in os.listdir(d):
+                    os.unlink(os.path.join(d, f))
+                if case.get("old"):
+                    with open(os.path.join(d, "app.log"), "wb") as f:
+                        for i in range(case["old"]):
+                            f.write(b"info|old%d:x;end\n" % i)
+        if r is None:
+            return "the fatal message did not terminate the process within 180 s (twice): the process hangs instead of aborting"
         if r.returncode == 98:
             return "sanitizer report in the child: " + r.stderr.decode(errors="replace")[-1500:]
         if r.returncode != -signal.SIGABRT:
